@@ -1,6 +1,7 @@
 package kubeclient
 
 import (
+	"sync"
 	"sync/atomic"
 
 	apierrors "k8s.io/apimachinery/pkg/api/errors"
@@ -20,6 +21,9 @@ import (
 // An informer's cache is empty until its Run has listed the resource once (one API call = one scheduling point, which
 // the world may stall); afterwards its lister reads the "cr:<resource>" informer view of simkube.
 type DynFactory struct {
+	// a real mutex, as in client-go's factory (ForResource takes the factory lock): one task runs at a time, so it never
+	// blocks, but the race detector must see the same ordering between callers that the real factory provides
+	mu   sync.Mutex
 	infs map[schema.GroupVersionResource]*dynInformer
 }
 
@@ -35,6 +39,8 @@ func (f *DynFactory) WaitForCacheSync(stopCh <-chan struct{}) map[schema.GroupVe
 func (f *DynFactory) ForResource(gvr schema.GroupVersionResource) informers.GenericInformer {
 	// called by crdCache.getLister before it takes its lock, possibly by several tasks: the simulator runs one task at
 	// a time and there is no scheduling point in here
+	f.mu.Lock()
+	defer f.mu.Unlock()
 	if i, ok := f.infs[gvr]; ok {
 		return i
 	}
